@@ -18,9 +18,13 @@ for d in sorted(glob.glob(os.path.join(HERE, 'seeded', '*'))):
         continue
     meta = json.load(open(os.path.join(d, 'meta.json')))
     sid, prop = meta['id'], meta['breaks_property']
+    if os.environ.get('MATRIX_ONLY') and not any(sid.startswith(x) for x in os.environ['MATRIX_ONLY'].split(',')):
+        continue
     props = [prop] + [p for p in sys.argv[1:] if p != prop and False]
     if subprocess.run(['git', '-C', REPO, 'apply', os.path.join(d, 'patch.diff')]).returncode != 0:
         rows.append((sid, prop, 'patch-does-not-apply', 0, []))
+        meta['detected_by'] = dict(check=prop, exit_code='patch-does-not-apply', violations=0, failed=[])
+        json.dump(meta, open(os.path.join(d, 'meta.json'), 'w'), indent=1)
         print(sid, prop, 'PATCH DOES NOT APPLY', flush=True)
         continue
     try:
@@ -36,7 +40,12 @@ for d in sorted(glob.glob(os.path.join(HERE, 'seeded', '*'))):
 subprocess.run(['rm', '-rf', os.path.join(os.environ.get('VERIF_OUT') or HERE, 'replays')])
 if REPO != '/repo':
     subprocess.run(['git', '-C', '/repo', 'worktree', 'remove', '--force', REPO])
+# the table is rebuilt from the recorded result of every seed (a run restricted with MATRIX_ONLY updates its rows only)
 with open(os.path.join(HERE, 'seeded', 'RESULTS.md'), 'w') as f:
     f.write('| seed | property | check exit | VIOLATION lines | failing obligations / clauses |\n|---|---|---|---|---|\n')
-    for sid, prop, rc, n, failed in rows:
-        f.write(f'| {sid} | {prop} | {rc} | {n} | {"; ".join(failed[:6])} |\n')
+    for d in sorted(glob.glob(os.path.join(HERE, 'seeded', '*'))):
+        if not os.path.isdir(d):
+            continue
+        meta = json.load(open(os.path.join(d, 'meta.json')))
+        det = meta.get('detected_by') or {}
+        f.write(f"| {meta['id']} | {meta['breaks_property']} | {det.get('exit_code')} | {det.get('violations')} | {'; '.join((det.get('failed') or [])[:6])} |\n")
